@@ -5,16 +5,47 @@ import TlshVerif.Model.Params
 
 namespace TlshVerif.Model
 
-/-- The length passed to the validity check. -/
-def finLen (s : GenState) : Nat := (processedLen s).getD (2 ^ 32 - 1)
+theorem lengthGate_tooLarge_iff (val : Validity) (o : Options) :
+    lengthGate val o = some .tooLarge ↔ val = .tooLarge := by
+  cases val <;> cases hc : o.conservative <;> cases hs : o.allowSmall <;>
+    simp [lengthGate, Validity.isErrOn, hc, hs]
+
+theorem distributionGate_cases (q3 : UInt32) (nz mn : Nat) (o : Options) :
+    distributionGate q3 nz mn o = none ∨ distributionGate q3 nz mn o = some .threeQuarterEmpty ∨
+      distributionGate q3 nz mn o = some .halfEmpty := by
+  unfold distributionGate
+  split
+  · exact Or.inr (Or.inl rfl)
+  · split
+    · exact Or.inr (Or.inr rfl)
+    · exact Or.inl rfl
+
+theorem finalizeCore_ne_lengthError (agg : List UInt32 → UInt32 → UInt32 → UInt32 → List UInt8)
+    (P : GenParams) (cfg : Cfg) (v : Variant) (s : GenState) (o : Options) (lv : Nat) :
+    finalizeCore agg P cfg v s o lv ≠ .err .tooLarge ∧ finalizeCore agg P cfg v s o lv ≠ .err .tooSmall := by
+  unfold finalizeCore
+  simp only []
+  rcases distributionGate_cases (selectQuartiles (bucketData v s) v.buckets).2.2
+      (List.countP (· ≠ 0) (bucketData v s)) (vparams P v).minNonzero o with h | h | h <;>
+    rw [h] <;> simp only [] <;> (try split) <;> simp
+
+theorem encodeThen_ne_err (r : Outcome Unit (Option Nat)) (k : Nat → Outcome GenError Hash) (e : GenError)
+    (h : ∀ lv, k lv ≠ .err e) : encodeThen r k ≠ .err e := by
+  unfold encodeThen
+  split <;> simp_all
 
 theorem genFinalizeWith_tooLarge_iff (agg : List UInt32 → UInt32 → UInt32 → UInt32 → List UInt8)
     (P : GenParams) (cfg : Cfg) (v : Variant) (s : GenState) (o : Options) :
     genFinalizeWith agg P cfg v s o = .err .tooLarge ↔
       validity P (vparams P v) (finLen s) = .tooLarge := by
-  unfold genFinalizeWith finLen
-  cases hv : validity P (vparams P v) ((processedLen s).getD (2 ^ 32 - 1)) <;>
-    simp only [Validity.isErrOn] <;> (repeat' split) <;> simp_all <;> (try (intro h; simp_all))
+  rw [← lengthGate_tooLarge_iff _ o]
+  unfold genFinalizeWith
+  cases hg : lengthGate (validity P (vparams P v) (finLen s)) o with
+  | some e => simp
+  | none =>
+    have := encodeThen_ne_err (encodeLength P cfg (finLen s)) (finalizeCore agg P cfg v s o) .tooLarge
+      (fun lv => (finalizeCore_ne_lengthError agg P cfg v s o lv).1)
+    simp [this]
 
 /-- If the length is not an error for the mode, or small inputs are allowed and
 it is not too large, the length gate passes. -/
